@@ -95,6 +95,8 @@ type ApiEvt struct {
 	SInv, SRet uint64
 	Err        error
 	Bool       bool // result of validate calls
+	startsAtInv int // stop calls: successful Starts of the instance so far, at invocation
+	duringStart bool // stop calls: invoked while a Start of the object had not returned
 	// for validate: claim/token at invocation
 	LeaderAtInv    bool
 	TokenAtInv     string
